@@ -78,8 +78,9 @@ def small(harness, rule, probes=(), level="exploration", quick=None, thorough=No
 
 COMPONENTS["wal"] = {"real": ["wal (Hydro, HydroEvent)", "wal/kv (Lithium)", "go.etcd.io/bbolt on a real file"], "stub": ["event handlers (seeded outcomes)"]}
 COMPONENTS["txn"] = {"real": ["utils.Txn", "utils.PCR"], "stub": ["the three step functions (seeded outcomes)"]}
-COMPONENTS["lock"] = {"real": ["store/etcdv3/meta.CreateLock", "lock/etcdlock", "etcd client concurrency (Session, Mutex)", "etcd client lessor + KV"], "stub": ["etcd server (simetcd)"]}
-COMPONENTS["eph"] = {"real": ["store/etcdv3/meta.StartEphemeral", "etcd client lessor + KV"], "stub": ["etcd server (simetcd)"]}
+COMPONENTS["lock"] = {"real": ["store/etcdv3/meta.CreateLock", "lock/etcdlock", "etcd client concurrency (Session, Mutex)", "etcd client lessor + KV", "store/redis CreateLock + lock/redis", "muroq/redislock", "go-redis client"], "stub": ["etcd server (simetcd)", "redis server (miniredis inside the bubble, served over in-memory pipes, TTLs on the virtual clock)"]}
+COMPONENTS["eph"] = {"real": ["store/etcdv3/meta.StartEphemeral", "etcd client lessor + KV", "store/redis StartEphemeral", "go-redis client"], "stub": ["etcd server (simetcd)", "redis server (miniredis inside the bubble)"]}
+COMPONENTS["store"] = {"real": ["store/etcdv3 (Mercury: pods, nodes, workloads, statuses, processing, deploy status)", "store/etcdv3/meta (ETCD: batch create/update/put, BindStatus)", "store/redis (Rediaron: the same)", "etcd clientv3 KV + lessor", "go-redis client", "utils.MakeWorkloadName/ParseWorkloadName", "engine factory (for node engines attached on read)"], "stub": ["etcd server (simetcd, leases on the virtual clock)", "redis server (miniredis inside the bubble, TTLs on the virtual clock)", "node engines (simengine)"]}
 
 COMPONENTS["send"] = {"real": ["rpc.Vibranium.Send + transform (chunking)", "cluster/calcium SendLargeFile + locks", "store/etcdv3", "lock/etcdlock + etcd concurrency"], "stub": ["gRPC server stream (fake stream object)", "etcd server (simetcd)", "node engines (simengine: read all / reject at once / abort after k bytes)"]}
 COMPONENTS["retry"] = {"real": ["client/interceptor NewStreamRetry + retryStream", "cenkalti/backoff on the virtual clock"], "stub": ["grpc.Streamer and client streams (scripted breaks)"]}
@@ -101,6 +102,17 @@ PROPS = {
     "C36": small("retry", "one evaluation = one client stream through NewStreamRetry (budget 1-4) against a scripted server: 1-5 streams that deliver 0-3 messages and then break with Unavailable / Internal / EOF, 0..budget+1 failing attempts to reopen, optional cancellation by the caller after k messages, watch and non-watch methods; "
                  "non-trivial = every case; distinct = distinct (messages, requests seen by the server) hash",
                  probes=["stream_reopened", "budget_exhausted", "caller_cancelled"]),
+    "C23": small("store", "one evaluation = one seeded history of 8-30 Store-interface calls (add/remove pod, add/remove/update node with labels and certificates, node and workload status with TTLs -1/0/3/10/30/3600, add (plain and with in-progress marker)/update/remove workload, create/delete in-progress markers, list with filters and limits, get, deploy status, virtual time passing) over 2 pods, 3 nodes, 2 apps, 2 entrypoints and 6 workload ids, "
+                 "executed operation by operation against Mercury over simulated etcd and Rediaron over simulated Redis in one bubble; after every operation both stores are read back completely through the API; the comparison of a history stops at the first divergence that changes state; "
+                 "non-trivial = at least one operation succeeded; distinct = distinct hash of the sequence of read-back states",
+                 probes=["workload_added", "status_set", "advance", "list_checked"]),
+    "C24": small("store", "as C23, with three name universes chosen by seed: (half) names that are prefixes of each other or contain '_' (a, ab, a_b, a_b_c / b, bc, b-c / n, n1, n10, n1x), (quarter) names containing '/', (quarter) names containing glob characters; no in-progress markers, many list queries with every filter combination; "
+                 "after every operation GetDeployStatus of every (app, entry) in use and every ListWorkloads query are compared with the set of workloads created under exactly those names, and every workload name is parsed back; "
+                 "non-trivial = at least one operation succeeded; distinct = distinct read-back hash",
+                 probes=["workload_added", "list_checked", "deploy_count_checked"]),
+    "C25": small("store", "as C23 restricted to 2 nodes and 3 workloads of one application so that reports, repeated reports, TTL changes, removals and time steps of 1-31 s meet; after every operation the visibility of every node and workload status on both backends is compared with a reference model (visible until TTL after the latest report, or removal; TTL 0 never expires; TTL>0 refused for a missing entity); "
+                 "non-trivial = at least one operation succeeded; distinct = distinct read-back hash",
+                 probes=["status_set", "same_status_reported_again", "same_status_other_ttl", "status_changed", "status_without_ttl", "node_status_expired", "workload_status_expired", "advance"]),
     "C16": small("wal", "one evaluation = a seeded history of 5-35 log / commit / burst / recover / clean reopen / crash-reopen operations by 1-3 concurrent logger tasks over three event types whose handlers succeed, fail, decline, fail the check or fail to decode, or are unregistered after a restart; "
                  "every kv call (NextSequence, Put, Delete, Scan) and every handler call is a scheduler step, the process may die between any two of them (also inside a recovery) and the next instance opens a copy of the bbolt file taken at that step; 0-1 injected kv error; "
                  "non-trivial = at least one event was logged or a crash happened; distinct = distinct seam-trace hash",
@@ -176,9 +188,12 @@ MANIFEST_TEXT = {
     "C36": {"text": "The real retry interceptor over scripted stream breaks with back-off on the virtual clock: the client sees the concatenation of the servers' messages while reopening stays within the budget, every new stream gets the original request, nothing is opened after the caller cancelled, non-watch methods get the raw stream.", "note": _NOTE_S + " GODEBUG=randautoseed=0 pins math/rand's global source used by the back-off jitter."},
     "C16": {"text": "History check against a model of the log file: on every recovery the sequence of handler invocations must equal the uncommitted events in id order, each once (a prefix of it when the process dies inside the recovery); an event is gone exactly when it was handled successfully or declined; ids strictly increase over the whole history including restarts; the real file is compared with the model after every phase.", "note": "Trusted: bbolt's transaction atomicity; crash = death between two kv calls with the file copied at that instant. " + _NOTE_S},
     "C17": {"text": "Complete enumeration (exhaustive: true in the evidence when all 252 x 3 cases ran) of outcome vectors x cancellation points for utils.Txn and utils.PCR under the simulator: call log and return value are compared with the specification (then iff cond ok; rollback once iff a step failed, with the right flag; first failure returned; rollback context not reached by the caller's cancellation; PCR rolls back only on commit failure).", "note": _NOTE_S},
-    "C18": {"text": "Contenders under seeded schedules on the etcd backend (real etcdlock + real concurrency.Mutex/Session + real lessor over simetcd): never two holders with a live lock context, a try-lock on a held lock fails without virtual time passing, a waiter acquires after a release or fails at its wait timeout, everybody finishes.", "note": _NOTE_S + " The Redis backend joins this check when the simulated Redis is available in the build (see DESIGN)."},
-    "C19": {"text": "Lease revocation and client pauses past the TTL while another contender waits: the holder's lock context must be cancelled within one keep-alive interval (TTL/3, plus the etcd lessor's 0.5-1 s polling granularity) of the loss at the server, and a stale holder may coexist with the next holder no longer than that.", "note": _NOTE_S},
-    "C26": {"text": "Registrants with pauses longer than the TTL, server-side revocation and deregistration: two registrants may both believe they hold the key only while the older one has not yet been able to complete a heartbeat tick; a lapsed registrant's expiry channel closes; deregistering or refreshing never touches a registration created by someone else (ownership read from the store).", "note": _NOTE_S + " The literal statement (never two believers) cannot be met by any lease scheme during the pause itself; the oracle demands it once the stale registrant could have learnt of its lapse."},
+    "C23": {"text": "Differential history check: the same seeded operation sequence runs against the real etcd store over simulated etcd and the real Redis store over simulated Redis; every operation must succeed or fail on both, return the same result, and leave the same complete read-back; a create that fails must leave the read-back unchanged. Found and fixed five divergences (see known_findings.json); two remain recorded (Redis SetNodeStatus without entity check - pinned by an existing test; duplicate ids in GetWorkloads).", "note": _NOTE_S + " Sequential histories on a virtual clock, no injected faults: the property has no schedule in it; the simulator contributes the two in-bubble servers and time. miniredis stands in for Redis."},
+    "C24": {"text": "Model-based history check on both backends: list and deploy-count queries return exactly the workloads created under the queried application / entrypoint / node, names parse back. Holds for names that are prefixes of each other or contain '_'; names containing '/' (both backends) or glob characters (Redis) break isolation - recorded findings matched by the kind of names in play, so a violation among plain names is still reported.", "note": _NOTE_S + " The status stream part of the statement is covered through the same key prefixes only (ListWorkloads/GetDeployStatus); WorkloadStatusStream itself is not driven."},
+    "C25": {"text": "Status reports with TTLs on the virtual clock against a reference model, on both backends: accepted only for existing entities (TTL>0), visible until TTL after the latest report or removal of the entity, repeated reports extend, TTL 0 stays. Found and fixed: node status outlived the node (both backends). Recorded: Redis accepts a node status for a missing node.", "note": _NOTE_S},
+    "C18": {"text": "Contenders under seeded schedules on the etcd backend (real etcdlock + real concurrency.Mutex/Session + real lessor over simetcd) and on the Redis backend (real lock/redis + redislock + go-redis over miniredis in the bubble): never two holders with a live lock context, a try-lock on a held lock fails without virtual time passing, a waiter acquires after a release or fails at its wait timeout, everybody finishes.", "note": _NOTE_S + ""},
+    "C19": {"text": "Lease revocation and client pauses past the TTL while another contender waits: the holder's lock context must be cancelled within one keep-alive interval (TTL/3, plus the etcd lessor's 0.5-1 s polling granularity) of the loss at the server, and a stale holder may coexist with the next holder no longer than that. On the Redis backend (TTL elapsing on the virtual clock) the lock context is never cancelled: recorded findings KF-C19-1..4.", "note": _NOTE_S},
+    "C26": {"text": "Registrants with pauses longer than the TTL, server-side revocation and deregistration: two registrants may both believe they hold the key only while the older one has not yet been able to complete a heartbeat tick; a lapsed registrant's expiry channel closes; deregistering or refreshing never touches a registration created by someone else (ownership read from the store). etcd and Redis backends; on Redis a fixed defect (lapse unnoticed when the key is gone) and four recorded findings (no owner token in the key).", "note": _NOTE_S + " The literal statement (never two believers) cannot be met by any lease scheme during the pause itself; the oracle demands it once the stale registrant could have learnt of its lapse."},
     "C10": {"text": "Whole-system simulation: real Calcium/cobalt/cpumem/Mercury/etcd-concurrency/WAL over simulated etcd and engines. After every operation of a sequential history (each history swept with single injected failures) and at quiescence of concurrent histories, every node's recorded usage must equal the sum of the workloads recorded on it and the node resource check must report no differences.", "note": _NOTE_CLU},
     "C11": {"text": "Fault enumeration over the seam calls of every operation kind: for each single failing step, the canonical snapshot of store, plugin records and engine containers after a call that reported failure must equal the snapshot before it (item-wise for multi-item calls; a failed replace keeps the old workload recorded and running).", "note": _NOTE_CLU},
     "C12": {"text": "For every create the result stream must close and carry either one failure with nothing created or exactly one message per instance of the plan the deployment executed; successes must be recorded, running and placed as reported, failures must leave no record, container or usage. With and without one injected failure.", "note": _NOTE_CLU},
